@@ -143,6 +143,23 @@ class NeedMutSelf(Exception):
     as a state-updating method"""
 
 
+def desugar_iter_mut(node):
+    """(b1012, round 9) `for x in PLACE.iter_mut() { *x = RHS; }` (exactly one statement, an assignment through the loop
+    variable) is `PLACE = PLACE.iter().map(|x| RHS).collect();` -- every element is replaced by RHS evaluated on it, in order.
+    Any other use of `iter_mut` in a `for` stays refused."""
+    if isinstance(node, list): return [desugar_iter_mut(x) for x in node]
+    if not isinstance(node, tuple): return node
+    if len(node) == 4 and node[0] == "for" and node[1][0] == "pvar" and isinstance(node[2], tuple) and len(node[2]) == 6 \
+            and node[2][0] == "mcall" and node[2][2] == "iter_mut" and not node[2][4] \
+            and node[3][0] == "block" and len(node[3][1]) == 1 and node[3][2] is None:
+        st = node[3][1][0]
+        if st[0] == "expr" and st[1][0] == "assign" and st[1][1] == "=" and st[1][2] == ("deref", ("path", [node[1][1]])):
+            X, ln, rhs = node[2][1], node[2][5], st[1][3]
+            return ("assign", "=", X, ("mcall", ("mcall", ("mcall", X, "iter", None, [], ln), "map", None,
+                                                 [("closure", [node[1]], rhs, "same_elt")], ln), "collect", None, [], ln))
+    return tuple(desugar_iter_mut(x) for x in node)
+
+
 class Unit:
     """one Rust source file -> one Lean namespace"""
 
@@ -185,6 +202,8 @@ class Unit:
             for n, fields in idx.structs.items():
                 if n not in self.fi.structs:
                     self.fi.structs[n] = fields; self.struct_src[n] = "trusted view declared in translate/x_fn.py"
+            for n, vs in idx.enums.items():     # unit-variant enums of library types (e.g. atomic `Ordering`): b1012, round 9
+                self.fi.enums.setdefault(n, vs)
         for r in struct_files:      # struct declarations of other files, used as local structures
             idx = index_of(r)
             for n, fields in idx.structs.items():
@@ -208,6 +227,15 @@ class Unit:
         # structs of other crates whose fields the code reads (e.g. bitcoin::OutPoint {txid, vout}): declared in the
         # target list (trusted: field names and types are checked by rustc only through the differential harness)
         for n, flds in (foreign_structs or {}).items():
+            if isinstance(flds, str):
+                # b1012, round 9: `"Alias": "@path/of/file.rs::Struct"` -- a struct of another file of /repo imported under another
+                # name (`use …::VelocityControl as CoreVelocityControl`): its fields are read from that file's current source
+                r_, _, sn_ = flds[1:].partition("::")
+                if not flds.startswith("@") or sn_ not in index_of(r_).structs:
+                    raise RsError("foreign_structs: %s: no struct %s" % (n, flds))
+                if n not in self.fi.structs:
+                    self.fi.structs[n] = index_of(r_).structs[sn_]; self.struct_src[n] = "%s (struct %s)" % (r_, sn_)
+                continue
             if n not in self.fi.structs:
                 self.fi.structs[n] = [(f, Parser(lex(ty) + [Tok("eof", "", 0)], 0, "<foreign>").type_()) for f, ty in flds.items()]
                 self.struct_src[n] = "declared in the target list"
@@ -398,6 +426,7 @@ class Unit:
                 f = src.function(impl, name)
             else:
                 f = self.fi.function(impl, name)
+            f = dict(f); f["body"] = desugar_iter_mut(f["body"])
             try:
                 info = FnTranslator(self, f).run()
             except NeedMutSelf:
@@ -1539,6 +1568,9 @@ class FnTranslator:
             return self.place_set(e[1], "(some %s)" % new, env, pre)
         if k == "mcall" and e[2] in ("as_mut", "borrow_mut", "as_mut_slice") and not e[4]:
             return self.place_set(e[1], new, env, pre)
+        if k == "mcall" and e[2] in ("unwrap", "expect") and e[1][0] == "mcall" and e[1][2] == "lock" and not e[1][4]:
+            # (b1012, round 9) `*X.lock().unwrap() = v;`: the lock is the identity on the protected value (as for reads)
+            return self.place_set(e[1][1], new, env, pre)
         if k == "tfield":
             base, bt = self.expr(e[1], env, pre, None)
             if bt[0] != "tuple" and e[2] == 0 and bt in getattr(self.u, "newtype_reps", []):
@@ -1635,7 +1667,10 @@ class FnTranslator:
                 return self.place_set(place, v, env, pre)
             r = self.mutator(recv, e[2], e[4], env, pre, None, discard=True)
             if r is not None: return env
-            raise RsError("mutating method %s on %r is outside the subset" % (e[2], bt[0]))
+            # (b1012, round 9) a struct of the unit with a method of its own that happens to be named like a collection mutator
+            # (`VelocityControl::clear`): the ordinary call of a `&mut self` method on a place, below
+            if not (bt[0] == "struct" and self.u.fi.fns.get((bt[1], e[2])) not in (None, "ambiguous")):
+                raise RsError("mutating method %s on %r is outside the subset" % (e[2], bt[0]))
         term, t = self.expr(e, env, pre, None)
         if t != UNIT:
             # a discarded value: fine if pure (its bindings stay for their panics)
@@ -2741,6 +2776,13 @@ class FnTranslator:
         if m == "into" and not args:
             if want is not None and is_uint(want) and is_uint(bt) and UBITS[want[1]] >= UBITS[bt[1]]: return base, want, "val"
             if want is not None and want == bt: return base, bt, "val"
+            if want is not None and want[0] == "struct" and bt[0] == "struct" and self.u.fi.fns.get((want[1], "from")) not in (None, "ambiguous"):
+                # b1012, round 9: `x.into()` where the wanted type is a struct of the unit with exactly one `impl From<_> for T`
+                # (conversions between in-memory and persisted types): the call `T::from(x)`; the argument type is checked
+                info = self.u.get_fn(want[1], "from")
+                ps = [p_ for p_ in info.params if p_[0] != "self"]
+                if len(ps) == 1 and ps[0][1] == bt and not info.mut_params:
+                    return self.call_translated(info, [base if base.startswith("(") or " " not in base else "(" + base + ")"], env, pre)
             raise RsError(".into() without a known widening target")
         if k == "viter":
             # values/keys/entries of a collection in an order the model does not know
@@ -3035,7 +3077,8 @@ class FnTranslator:
             return "(%s.contains %s)" % (base, x), BOOL, "val"
         if bt[0] != "iter": raise RsError("method .%s on a vector is outside the subset" % m)
         if m == "map":
-            pats, ir, t = self.closure1(args[0], [el], env, None)
+            # (a closure made by desugar_iter_mut returns a new element: its result is typed by the element type)
+            pats, ir, t = self.closure1(args[0], [el], env, el if len(args[0]) > 3 and args[0][3] == "same_elt" else None)
             if t == INTLIT: raise RsError("closure returning an untyped literal")
             if not monadic(ir):
                 return "(%s.map (fun %s => %s))" % (base, pats[0], inline(ir)), ("iter", t), "val"
